@@ -107,6 +107,23 @@ def run(ctx):
             finally:
                 if os.path.exists(f):
                     os.remove(f)
+        # a fresh file written with overwrite=False (the writer's exclusive-create mode) reads back equal too
+        for fmt, ext in (("hdf5", "h5"), ("fits", "fits")):
+            f = os.path.join(work, f"excl.{ext}")
+            dE, aE = np.arange(12.0).reshape(3, 4), [np.array([1.0, 2.0, 4.0]), np.array([-1, 0, 5, 7], dtype=np.int32)]
+            ctx.count("roundtrip")
+            try:
+                if os.path.exists(f):
+                    os.remove(f)
+                NssGrid(dE.copy(), [a.copy() for a in aE], ["e", "b c"]).write(f, format=fmt, overwrite=False)
+                r = NssGrid.read(f, format=fmt)
+                if not (same_array(r.data, dE) and all(same_array(x, y) for x, y in zip(r.axes, aE)) and list(r.axis_names) == ["e", "b c"]):
+                    ctx.violation("roundtrip", f"{fmt}: a grid written to a fresh file with overwrite=False does not read back equal", {"format": fmt, "overwrite": False})
+            except Exception as e:
+                ctx.exception("roundtrip", f"{fmt}: write(overwrite=False) to a fresh file / read raised", e, {"format": fmt})
+            finally:
+                if os.path.exists(f):
+                    os.remove(f)
         # second open finding's fixed witnesses: half precision through both formats (FITS has no 16-bit
         # float: data raises KeyError('float16'), an axis comes back as float32 with the same values)
         for fmt, ext in (("hdf5", "h5"), ("fits", "fits")):
